@@ -1,5 +1,6 @@
 import MmtkModel.Lemmas.Sched
 import MmtkModel.Lemmas.SchedCount
+import MmtkModel.Lemmas.SchedIds
 import MmtkModel.Generated.Stages
 /-!
 # C15 — Stop-the-world stages open in order; each packet runs exactly once
@@ -152,6 +153,23 @@ theorem packet_conservation {c : Cfg} (hu : c.unconIdx < c.L) {s : State} (h : R
   let k := reachable_invK hu h
   ⟨k.added_eq, k.started_eq⟩
 
+/-- `Reachable` is closed under `step` -/
+theorem reachable_step {c : Cfg} {s s' : State} {a : Act} (hr : Reachable c s) (hs : step c s a = some s') :
+    Reachable c s' := by
+  obtain ⟨run, h⟩ := hr
+  refine ⟨run ++ [a], ?_⟩
+  have : ∀ (l : List Act) (t : State), exec c t l = some s → exec c t (l ++ [a]) = some s' := by
+    intro l
+    induction l with
+    | nil => intro t e; simp only [exec] at e; injection e with e; subst e; simp [exec, hs]
+    | cons b l ih =>
+      intro t e
+      simp only [exec, List.cons_append] at e ⊢
+      cases ht : step c t b with
+      | none => rw [ht] at e; cases e
+      | some t1 => rw [ht] at e; exact ih t1 e
+  exact this run _ h
+
 /-- **C15 (3) at the end of a GC**: nothing is running, every local deque and designated queue is
 empty, every started packet has ended, and every packet created so far has either ended or sits in a
 bucket queue / sentinel slot — and those of the stop-the-world buckets are empty
@@ -161,20 +179,7 @@ theorem gc_end_accounting {c : Cfg} (hwf : c.WF) (hu : c.unconIdx < c.L) (hmut :
     {s s' : State} {a : Act} (hr : Reachable c s) (hs : step c s a = some s') (hg : s'.gcDone ≠ s.gcDone) :
     running c s' = 0 ∧ s'.started = s'.ended ∧ qBuf c s' = 0 ∧ qDes c s' = 0 ∧ s'.added = qBkt c s' + s'.ended ∧
     ∀ b, b < c.L → (c.info b).isStw = true → (s'.bkt b).q = [] := by
-  have hr' : Reachable c s' := by
-    obtain ⟨run, h⟩ := hr
-    refine ⟨run ++ [a], ?_⟩
-    have : ∀ (l : List Act) (t : State), exec c t l = some s → exec c t (l ++ [a]) = some s' := by
-      intro l
-      induction l with
-      | nil => intro t e; simp only [exec] at e; injection e with e; subst e; simp [exec, hs]
-      | cons b l ih =>
-        intro t e
-        simp only [exec, List.cons_append] at e ⊢
-        cases ht : step c t b with
-        | none => rw [ht] at e; cases e
-        | some t1 => rw [ht] at e; exact ih t1 e
-    exact this run _ h
+  have hr' : Reachable c s' := reachable_step hr hs
   obtain ⟨k1, k2⟩ := packet_conservation hu hr'
   obtain ⟨⟨w, tag, rfl⟩, _, _, hclosed⟩ := all_closed_at_end hwf hs hg
   obtain ⟨q1, q2⟩ := quiescent_at_end hwf hmut hr hs hg
@@ -197,5 +202,206 @@ theorem gc_end_accounting {c : Cfg} (hwf : c.WF) (hu : c.unconIdx < c.L) (hmut :
 
 open Mmtk.Generated.Stages in
 example : (cfg 4).WF := generated_wf 4 (by decide) false
+
+/-! ## uniqueness of packet ids: every packet is queued, running or ended — exactly one of them, once
+
+Ids are generated by the model (`newPkt` takes the ghost counter `nextId`, `bump` increments it), so
+freshness is derived, not assumed: `reachable_invU` (`Lemmas/SchedIds.lean`). -/
+
+/-- `Reachable` is closed under `exec` -/
+theorem reachable_exec {c : Cfg} (run : List Act) : ∀ {s s' : State}, Reachable c s → exec c s run = some s' →
+    Reachable c s' := by
+  induction run with
+  | nil => intro s s' hr e; simp only [exec] at e; injection e with e; subst e; exact hr
+  | cons a l ih =>
+    intro s s' hr e
+    simp only [exec] at e
+    cases ht : step c s a with
+    | none => rw [ht] at e; cases e
+    | some t => rw [ht] at e; exact ih (reachable_step hr ht) e
+
+/-- **C15 (3) ids partition**: in every reachable state the ids of the queued packets (bucket queues,
+sentinel slots, local deques, designated queues), of the running packets and of the ended packets are,
+together, a permutation of `0, …, nextId − 1` — every id ever created is in exactly one place, once —
+and `added` counts them. -/
+theorem ids_partition {c : Cfg} (hu : c.unconIdx < c.L) {s : State} (h : Reachable c s) :
+    (allIds c s).Perm (List.range s.nextId) ∧ s.added = s.nextId := by
+  have k := reachable_invU hu h
+  refine ⟨List.perm_iff_count.mpr (fun i => ?_), k.1⟩
+  rw [count_allIds, k.2 i, List.count_range]
+
+/-- no id occurs twice among queued ++ running ++ ended -/
+theorem ids_nodup {c : Cfg} (hu : c.unconIdx < c.L) {s : State} (h : Reachable c s) : (allIds c s).Nodup :=
+  (ids_partition hu h).1.nodup_iff.mpr List.nodup_range
+
+/-- no id is twice in one class (in particular no packet ends twice: `s.endedIds.Nodup`), and no id is
+in two of the classes queued / running / ended -/
+theorem ids_classes_disjoint {c : Cfg} (hu : c.unconIdx < c.L) {s : State} (h : Reachable c s) :
+    (queuedIds c s).Nodup ∧ (runningIds c s).Nodup ∧ s.endedIds.Nodup ∧
+    (∀ i, i ∈ queuedIds c s → i ∉ runningIds c s) ∧ (∀ i, i ∈ queuedIds c s → i ∉ s.endedIds) ∧
+    (∀ i, i ∈ runningIds c s → i ∉ s.endedIds) := by
+  have nd := ids_nodup hu h
+  unfold allIds at nd
+  rw [List.nodup_append] at nd
+  obtain ⟨nqr, ne, d1⟩ := nd
+  rw [List.nodup_append] at nqr
+  obtain ⟨nq, nr, d2⟩ := nqr
+  exact ⟨nq, nr, ne, fun i hq hr => d2 i hq i hr rfl, fun i hq he => d1 i (List.mem_append_left _ hq) i he rfl,
+    fun i hr he => d1 i (List.mem_append_right _ hr) i he rfl⟩
+
+/-- every created id is somewhere, nothing else is -/
+theorem ids_complete {c : Cfg} (hu : c.unconIdx < c.L) {s : State} (h : Reachable c s) :
+    ∀ i, i < s.nextId ↔ i ∈ allIds c s := fun i => by
+  rw [(ids_partition hu h).1.mem_iff, List.mem_range]
+
+/-- `endedIds` only grows (it changes only in `execEnd`, by consing: `step_endedIds`) -/
+theorem ended_stable {c : Cfg} {s s' : State} {a : Act} (hs : step c s a = some s') :
+    ∀ i, i ∈ s.endedIds → i ∈ s'.endedIds := by
+  intro i hi
+  rcases step_endedIds c s s' a hs with e | ⟨w, p, _, _, e⟩
+  · rw [e]; exact hi
+  · rw [e]; exact List.mem_cons_of_mem _ hi
+
+theorem ended_stable_exec {c : Cfg} (run : List Act) : ∀ {s s' : State}, exec c s run = some s' →
+    ∀ i, i ∈ s.endedIds → i ∈ s'.endedIds := by
+  induction run with
+  | nil => intro s s' e i hi; simp only [exec] at e; injection e with e; subst e; exact hi
+  | cons a l ih =>
+    intro s s' e i hi
+    simp only [exec] at e
+    cases ht : step c s a with
+    | none => rw [ht] at e; cases e
+    | some t => rw [ht] at e; exact ih e i (ended_stable ht i hi)
+
+/-- an ended packet is never queued or run again (one step) -/
+theorem runs_at_most_once {c : Cfg} (hu : c.unconIdx < c.L) {s s' : State} {a : Act} (hr : Reachable c s)
+    (hs : step c s a = some s') (i : Nat) (hi : i ∈ s.endedIds) :
+    s'.endedIds.count i = 1 ∧ i ∉ queuedIds c s' ∧ i ∉ runningIds c s' := by
+  have hr' := reachable_step hr hs
+  have hi' := ended_stable hs i hi
+  obtain ⟨_, _, ne, _, d2, d3⟩ := ids_classes_disjoint hu hr'
+  exact ⟨by rw [ne.count, if_pos hi'], fun hq => d2 i hq hi', fun hr => d3 i hr hi'⟩
+
+/-- an ended packet is never queued or run again (any number of steps) -/
+theorem never_runs_again {c : Cfg} (hu : c.unconIdx < c.L) {s s' : State} {run : List Act} (hr : Reachable c s)
+    (he : exec c s run = some s') (i : Nat) (hi : i ∈ s.endedIds) :
+    s'.endedIds.count i = 1 ∧ i ∉ queuedIds c s' ∧ i ∉ runningIds c s' := by
+  have hr' := reachable_exec run hr he
+  have hi' := ended_stable_exec run he i hi
+  obtain ⟨_, _, ne, _, d2, d3⟩ := ids_classes_disjoint hu hr'
+  exact ⟨by rw [ne.count, if_pos hi'], fun hq => d2 i hq hi', fun hr => d3 i hr hi'⟩
+
+/-- a GC is completed only when every designated queue is empty -/
+theorem desig_empty_at_end {c : Cfg} (hwf : c.WF) {s s' : State} {a : Act} (hs : step c s a = some s')
+    (hg : s'.gcDone ≠ s.gcDone) : ∀ v, v < c.n → s'.desig v = [] := by
+  obtain ⟨⟨w, tag, rfl⟩, _, _, _⟩ := all_closed_at_end hwf hs hg
+  obtain ⟨_, _, _, hcase⟩ := step_park_cases hs
+  rcases hcase with ⟨_, rfl⟩ | ⟨_, s1, r, hl, he⟩
+  · exact absurd rfl hg
+  · have hnd := onLastParked_gcDone_nodesig c _ s1 tag r hl (by intro e; apply hg; rw [he]; exact e)
+    have f := frame_onLastParked c _ _ _ _ hl
+    intro v hv
+    rw [he]; show s1.desig v = []; rw [f.desig]
+    exact hasDesignated_false hnd v hv
+
+/-- **C15 (3) exactly once.**  After the transition that completes a GC: the ids queued ++ running ++
+ended are a permutation of all ids ever created; nothing runs; every local deque, designated queue and
+stop-the-world bucket queue is empty; and every id ever created has **ended exactly once** and is not
+queued — except those that still sit, exactly once, in exactly one bucket, and that bucket is not
+stop-the-world (Unconstrained / Concurrent: mutator pushes between GCs, concurrent work) unless the
+packet is in the bucket's sentinel slot. -/
+theorem exactly_once {c : Cfg} (hwf : c.WF) (hu : c.unconIdx < c.L) (hmut : c.mutAddOpen = false)
+    {s s' : State} {a : Act} (hr : Reachable c s) (hs : step c s a = some s') (hg : s'.gcDone ≠ s.gcDone) :
+    (allIds c s').Perm (List.range s'.nextId) ∧ runningIds c s' = [] ∧
+    (∀ w, w < c.n → s'.buf w = [] ∧ s'.desig w = []) ∧
+    (∀ b, b < c.L → (c.info b).isStw = true → (s'.bkt b).q = []) ∧
+    ∀ i, i < s'.nextId →
+      (s'.endedIds.count i = 1 ∧ i ∉ queuedIds c s') ∨
+      (i ∉ s'.endedIds ∧ ∃ b, b < c.L ∧ (bktIds (s'.bkt b)).count i = 1 ∧
+        (∀ b', b' < c.L → b' ≠ b → i ∉ bktIds (s'.bkt b')) ∧
+        ((c.info b).isStw = true → ∃ p, (s'.bkt b).sentinel = some p ∧ p.id = i)) := by
+  have hr' := reachable_step hr hs
+  have k := reachable_invU hu hr'
+  have q3 := desig_empty_at_end hwf hs hg
+  obtain ⟨q1, q2⟩ := quiescent_at_end hwf hmut hr hs hg
+  obtain ⟨⟨w, tag, rfl⟩, _, _, hclosed⟩ := all_closed_at_end hwf hs hg
+  have hpcs := step_park_pcIds hs
+  have hpc0 : ∀ x, x < c.n → pcIds (s'.pc x) = [] := fun x hx => by
+    rw [hpcs x]; exact pcIds_of_not_exec (q1 x hx)
+  have hrun : runningIds c s' = [] := by
+    unfold runningIds; rw [List.flatMap_eq_nil_iff]; intro x hx; exact hpc0 x (List.mem_range.mp hx)
+  refine ⟨(ids_partition hu hr').1, hrun, fun w hw => ⟨q2 w hw, q3 w hw⟩,
+    fun b hb hstw => (hclosed b hb hstw).2, fun i hi => ?_⟩
+  have ho := k.2 i
+  rw [if_pos hi] at ho
+  unfold occ at ho
+  have r0 : runI i c s' = 0 := sumW_zero _ _ (fun x hx => by rw [hpc0 x hx]; rfl)
+  have b0 : qBufI i c s' = 0 := sumW_zero _ _ (fun v hv => by rw [q2 v hv]; rfl)
+  have d0 : qDesI i c s' = 0 := sumW_zero _ _ (fun v hv => by rw [q3 v hv]; rfl)
+  by_cases he : s'.endedIds.count i = 0
+  · right
+    have hb1 : qBktI i c s' = 1 := by omega
+    obtain ⟨b, hb, hb1', hbo⟩ := sumW_eq_one c.L (fun b => bktCntI i (s'.bkt b)) hb1
+    refine ⟨List.count_eq_zero.mp he, b, hb, hb1', fun b' hb' hne => List.count_eq_zero.mp (hbo b' hb' hne),
+      fun hstw => ?_⟩
+    have hq := (hclosed b hb hstw).2
+    simp only [bktCntI, bktIds, hq, List.map_nil, List.nil_append] at hb1'
+    cases hsn : (s'.bkt b).sentinel with
+    | none => rw [hsn] at hb1'; simp at hb1'
+    | some p =>
+      rw [hsn] at hb1'
+      refine ⟨p, rfl, ?_⟩
+      by_cases e : p.id = i
+      · exact e
+      · simp [e] at hb1'
+  · left
+    have hb0 : qBktI i c s' = 0 := by omega
+    refine ⟨by omega, ?_⟩
+    rw [← List.count_eq_zero, count_queuedIds]; omega
+
+/-! ### the hypotheses are satisfiable, the statements are not vacuous -/
+
+open Mmtk.Generated.Stages in
+example : (cfg 4).unconIdx < (cfg 4).L := by decide
+
+open Mmtk.Generated.Stages in
+/-- 2 workers; a GC is requested, worker 0 (last parked) starts the Gc goal (creates packet 0,
+`ScheduleCollection`), polls and runs it, pushes packet 1 into `Prepare`, and ends -/
+def idsDemoRun : List Act :=
+  (allConts (cfg 2)).map (Act.observeEmpty 1) ++ [.pollMiss 1, .park 1 0, .requestFlag, .makeRequest .gc (some 1)] ++
+  (allConts (cfg 2)).map (Act.observeEmpty 0) ++ [.pollMiss 0, .wake 1] ++
+  (allConts (cfg 2)).map (Act.observeEmpty 1) ++ [.pollMiss 1, .park 1 0, .park 0 7,
+    .pollBucket 0 0 ⟨0, 0, 7⟩, .push 0 2 9]
+
+open Mmtk.Generated.Stages in
+/-- packet 1 is queued, packet 0 is running, nothing has ended; after `execEnd` packet 0 has ended -/
+example : (exec (cfg 2) (init (cfg 2)) idsDemoRun).map
+    (fun s => (queuedIds (cfg 2) s, runningIds (cfg 2) s, s.endedIds, allIds (cfg 2) s, s.nextId)) =
+    some ([1], [0], [], [1, 0], 2) := by decide +kernel
+
+open Mmtk.Generated.Stages in
+example : (exec (cfg 2) (init (cfg 2)) (idsDemoRun ++ [.execEnd 0])).map
+    (fun s => (queuedIds (cfg 2) s, runningIds (cfg 2) s, s.endedIds, allIds (cfg 2) s, s.nextId)) =
+    some ([1], [], [0], [1, 0], 2) := by decide +kernel
+
+open Mmtk.Generated.Stages in
+/-- 1 worker; a whole GC: `ScheduleCollection` (id 0) leaves packet 1 in the Concurrent bucket and ends;
+the next `park` of the (last parked) worker completes the GC -/
+def gcEndRun : List Act :=
+  [.requestFlag, .makeRequest .gc none] ++
+  (allConts (cfg 1)).map (Act.observeEmpty 0) ++ [.pollMiss 0, .park 0 7, .pollBucket 0 0 ⟨0, 0, 7⟩,
+    .push 0 1 8, .execEnd 0] ++
+  (allConts (cfg 1)).map (Act.observeEmpty 0) ++ [.pollMiss 0]
+
+open Mmtk.Generated.Stages in
+/-- the hypotheses of `exactly_once` hold for the last step of this run (`gcDone` goes from 0 to 1), and
+both disjuncts of its conclusion occur: id 0 has ended once, id 1 sits once in the (non-stop-the-world)
+Concurrent bucket -/
+example : (exec (cfg 1) (init (cfg 1)) gcEndRun).map (fun s => s.gcDone) = some 0 ∧
+    (exec (cfg 1) (init (cfg 1)) (gcEndRun ++ [.park 0 0])).map
+      (fun s' => (s'.gcDone, s'.endedIds, queuedIds (cfg 1) s', runningIds (cfg 1) s', s'.nextId)) =
+    some (1, [0], [1], [], 2) ∧
+    (exec (cfg 1) (init (cfg 1)) (gcEndRun ++ [.park 0 0])).map
+      (fun s' => (bktIds (s'.bkt 1), ((cfg 1).info 1).isStw)) = some ([1], false) := by decide +kernel
 
 end Mmtk.Sched
